@@ -31,13 +31,16 @@ RULE = ("seeded schedules; distinct = canonical schedule JSON; non-trivial = som
         "same group was in flight")
 REQUIRED_BUCKETS = ["arrival-while-in-flight", "coalesced(overwritten-pending)", "arrival-at-completion-instant",
                     "in-flight-raised", "multi-group", "duration-0", "pending-started-at-exit-instant",
-                    "independent-group-started-while-other-busy", "equal-requests-repeated"]
+                    "independent-group-started-while-other-busy", "equal-requests-repeated",
+                    "overlapping-groups"]
 REQUIRED_COUNTERS = ["requests_sent", "distributions_entered", "schedules_run"]
 ASSUMPTIONS = ["probe ComponentManager; virtual time"]
 
 # ids of one group collide in a small hash table (1 and 9, 4 and 12): two equal sets built in a different insertion
 # order then iterate in a different order - a group must be identified by its members, not by how a set lists them
-GROUPS = [[1, 9], [3], [4, 12]]
+# the fourth group overlaps two others without being equal to them: groups are told apart by their exact member set,
+# a request of one must neither be held back behind nor be confused with a request of an overlapping one
+GROUPS = [[1, 9], [3], [4, 12], [3, 9]]
 
 
 def budget(tier: str) -> dict[str, Any]:
@@ -47,7 +50,7 @@ def budget(tier: str) -> dict[str, Any]:
 
 
 def gen(rng: Any, tier: str, i: int) -> Any:
-    ng = rng.randint(1, 3)
+    ng = rng.choice([1, 2, 3, 3, 4])
     n = rng.randint(2, 30)
     t = 0.0
     reqs = []
@@ -144,6 +147,8 @@ def check(case: dict[str, Any], rec: Any) -> None:
     rec.count("distributions_entered", sum(1 for e in log if e[0] == "enter"))
     if case["n_groups"] > 1:
         rec.bucket("multi-group")
+    if case["n_groups"] > 3:
+        rec.bucket("overlapping-groups")
     if any(r[2] == 0 for r in case["requests"]):
         rec.bucket("duration-0")
     if any(len(r) > 4 for r in case["requests"]):
